@@ -47,6 +47,14 @@ Proof. vm_compute. reflexivity. Qed.
 Example ex_pluck : map (fun x => pluck ex_tree (fst x)) (full_pathfy ex_tree) = map (fun x => Some (snd x)) (full_pathfy ex_tree).
 Proof. vm_compute. reflexivity. Qed.
 
+(* Nodes.ancestor: the answer is the nearest entry with the tag on the path (the path's own end included) - a function
+   of path and tag, so no earlier query can change it *)
+Theorem C10_ancestor_nearest : forall p tag q, ancestor p tag = Some q ->
+  exists rest, p = q ++ rest /\ (exists e, last q e = e /\ q <> [] /\ fst (last q e) = tag) /\ Forall (fun x => fst x <> tag) rest.
+Proof. exact ancestor_nearest. Qed.
+Theorem C10_ancestor_none : forall p tag, ancestor p tag = None <-> Forall (fun x => fst x <> tag) p.
+Proof. exact ancestor_none. Qed.
+
 Print Assumptions C10_pluck_full_pathfy.
 Print Assumptions C10_positions_nodup.
 Print Assumptions C10_paths_nodup.
@@ -56,3 +64,5 @@ Print Assumptions C10_path_string_roundtrip.
 Print Assumptions C10_render_injective.
 Print Assumptions C10_tags_ok.
 Print Assumptions C10_resolve_order_independent.
+Print Assumptions C10_ancestor_nearest.
+Print Assumptions C10_ancestor_none.
